@@ -1126,9 +1126,8 @@ def reshape_from_space(tensor: TorchObsType, space: spaces.Space) -> TorchObsTyp
     else:
         #
         reshaped: torch.Tensor = tensor.reshape(-1, *space.shape)
-        for squeeze_dim in [0, -1]:
-            if reshaped.size(squeeze_dim) == 1:
-                reshaped = reshaped.squeeze(squeeze_dim)
+        if reshaped.dim() > 1 and reshaped.size(-1) == 1:
+            reshaped = reshaped.squeeze(-1)
         return reshaped
 
 
